@@ -296,7 +296,11 @@ def snap_checks(ctx):
     for a, b in itertools.product(range(len(pool)), repeat=2):
         pls = [pool[a], pool[b]]
         snaps = [snap(p) for p in pls]
-        for kw in ({}, {"start": -1.0, "stop": 4.0, "num_steps": 11}, {"num_steps": 5}):
+        kws = [{}, {"start": -1.0, "stop": 4.0, "num_steps": 11}, {"num_steps": 5}]
+        if all(np.all(np.asarray(p.values)[:, [0, -1]] == 0) for p in pls):
+            # explicit bounds of exactly 0 (falsy!) and a grid strictly inside the sources' range
+            kws += [{"start": 0.0, "stop": 3.0, "num_steps": 7}, {"start": 0, "stop": 4.0}, {"start": -2.0, "stop": 0.0, "num_steps": 5}]
+        for kw in kws:
             start = kw.get("start", min(p.start for p in pls))
             stop = kw.get("stop", max(p.stop for p in pls))
             num = kw.get("num_steps", max(p.num_steps for p in pls))
